@@ -22,15 +22,35 @@ type Key struct {
 	PubU []byte // uncompressed
 }
 
+// guard runs f — a call into real gocoin code made by the harness for its OWN purposes (building keys,
+// signing, hashing: not the call under test). A panic there is an observation (histogram
+// "harness-call-panicked:<site>"), never a crash of the harness; the caller falls back to a neutral value.
+func guard(site string, f func()) (ok bool) {
+	defer func() {
+		if e := recover(); e != nil {
+			r.Hit("harness-call-panicked:" + site)
+			ok = false
+		}
+	}()
+	f()
+	return true
+}
+
 func newKey(g *vlib.Rng) *Key {
-	for {
+	for try := 0; try < 64; try++ {
 		p := g.Bytes(32)
 		p[0] &= 0x7f
-		pub := btc.PublicFromPrivate(p, true)
-		if pub != nil {
-			return &Key{Priv: p, Pub: pub, PubU: btc.PublicFromPrivate(p, false)}
+		var pub, pubU []byte
+		guard("PublicFromPrivate", func() {
+			pub = btc.PublicFromPrivate(p, true)
+			pubU = btc.PublicFromPrivate(p, false)
+		})
+		if len(pub) == 33 && len(pubU) == 65 {
+			return &Key{Priv: p, Pub: pub, PubU: pubU}
 		}
 	}
+	// key derivation is broken in the tree under test: a syntactically plausible placeholder keeps the run going
+	return &Key{Priv: append(make([]byte, 31), 1), Pub: append([]byte{2}, make([]byte, 32)...), PubU: append([]byte{4}, make([]byte, 64)...)}
 }
 
 func cat(parts ...[]byte) []byte {
@@ -106,36 +126,56 @@ func pushNum(v int64) []byte { return pushData(scriptNum(v)) }
 
 func hash160(b []byte) []byte {
 	var out [20]byte
-	btc.RimpHash(b, out[:])
+	guard("RimpHash", func() { btc.RimpHash(b, out[:]) })
 	return out[:]
 }
 
 func sha2(b []byte) []byte { h := sha256.Sum256(b); return h[:] }
 
+// dummyDER: a well-formed DER signature (r = s = 1) used where the real signer gave nothing.
+func dummyDER(ht byte) []byte { return []byte{0x30, 0x06, 0x02, 0x01, 0x01, 0x02, 0x01, 0x01, ht} }
+
 func derSig(priv, hash []byte, ht byte) []byte {
-	rr, ss, err := btc.EcdsaSign(priv, hash)
-	if err != nil {
-		return nil
+	var out []byte
+	guard("EcdsaSign", func() {
+		if len(hash) != 32 {
+			return // no digest (the sighash function of the tree under test panicked or returned nothing)
+		}
+		rr, ss, err := btc.EcdsaSign(priv, hash)
+		if err != nil || rr == nil || ss == nil {
+			return
+		}
+		var sig secp256k1.Signature
+		sig.R.Set(rr)
+		sig.S.Set(ss)
+		out = append(sig.Bytes(), ht)
+	})
+	if len(out) < 9 {
+		return dummyDER(ht)
 	}
-	var sig secp256k1.Signature
-	sig.R.Set(rr)
-	sig.S.Set(ss)
-	return append(sig.Bytes(), ht)
+	return out
 }
 
 // derSigHighS: the same signature with S replaced by n-S (valid ECDSA, fails LOW_S).
 func flipS(sigWithHt []byte) []byte {
-	var sig secp256k1.Signature
-	if sig.ParseBytes(sigWithHt) < 0 {
-		return sigWithHt
-	}
-	s := new(big.Int).Sub(curveN, &sig.S.Int)
-	sig.S.Set(s)
-	return append(sig.Bytes(), sigWithHt[len(sigWithHt)-1])
+	out := sigWithHt
+	guard("Signature.ParseBytes", func() {
+		var sig secp256k1.Signature
+		if sig.ParseBytes(sigWithHt) < 0 {
+			return
+		}
+		s := new(big.Int).Sub(curveN, &sig.S.Int)
+		sig.S.Set(s)
+		out = append(sig.Bytes(), sigWithHt[len(sigWithHt)-1])
+	})
+	return out
 }
 
 // padDER re-encodes a strict DER signature with `pad` extra leading zero bytes in R (lax-DER only).
 func padDER(sigWithHt []byte, pad int) []byte {
+	if len(sigWithHt) < 9 || 4+int(sigWithHt[3]) > len(sigWithHt)-1 {
+		return sigWithHt
+	}
 	lenR := int(sigWithHt[3])
 	r := sigWithHt[4 : 4+lenR]
 	rest := sigWithHt[4+lenR : len(sigWithHt)-1] // 02 lenS S
@@ -186,13 +226,15 @@ func (c *Case) setWit(items ...[]byte) {
 }
 
 func signLegacy(c *Case, scriptCode []byte, k *Key, ht byte) []byte {
-	tx := buildTx(c)
-	return derSig(k.Priv, tx.SignatureHash(scriptCode, c.Idx, int32(ht)), ht)
+	var h []byte
+	guard("SignatureHash", func() { h = buildTx(c).SignatureHash(scriptCode, c.Idx, int32(ht)) })
+	return derSig(k.Priv, h, ht)
 }
 
 func signWitV0(c *Case, scriptCode []byte, k *Key, ht byte) []byte {
-	tx := buildTx(c)
-	return derSig(k.Priv, tx.WitnessSigHash(scriptCode, c.Spent[c.Idx].Value, c.Idx, int32(ht)), ht)
+	var h []byte
+	guard("WitnessSigHash", func() { h = buildTx(c).WitnessSigHash(scriptCode, c.Spent[c.Idx].Value, c.Idx, int32(ht)) })
+	return derSig(k.Priv, h, ht)
 }
 
 // ---------------------------------------------------------------- taproot
@@ -259,20 +301,24 @@ func tapBranch(a, b []byte) []byte {
 // tapOutput: output key and parity for internal key X and merkle root (nil = key-path only), plus the tweak.
 func tapOutput(internalX, root []byte) (outX []byte, parity bool, tweak []byte) {
 	tweak = tagged("TapTweak", internalX, root)
-	var xy secp256k1.XY
-	if !xy.ParsePubkey(append([]byte{2}, internalX...)) {
-		return make([]byte, 32), false, tweak
-	}
-	var t secp256k1.Number
-	t.SetBytes(tweak)
-	if !xy.ECPublicTweakAdd(&t) {
-		return make([]byte, 32), false, tweak
-	}
-	xy.X.Normalize()
-	xy.Y.Normalize()
 	outX = make([]byte, 32)
-	xy.X.GetB32(outX)
-	return outX, xy.Y.IsOdd(), tweak
+	guard("ECPublicTweakAdd", func() {
+		var xy secp256k1.XY
+		if !xy.ParsePubkey(append([]byte{2}, internalX...)) {
+			return
+		}
+		var t secp256k1.Number
+		t.SetBytes(tweak)
+		if !xy.ECPublicTweakAdd(&t) {
+			return
+		}
+		xy.X.Normalize()
+		xy.Y.Normalize()
+		x := make([]byte, 32)
+		xy.X.GetB32(x)
+		outX, parity = x, xy.Y.IsOdd()
+	})
+	return outX, parity, tweak
 }
 
 func tapTweakPriv(priv, tweak []byte) []byte {
@@ -284,20 +330,23 @@ func tapTweakPriv(priv, tweak []byte) []byte {
 // signTap signs the BIP341 message of input c.Idx; where no message exists (undefined hash type,
 // SIGHASH_SINGLE without output) the 32-byte zero string is signed (the digest gocoin used to fall back to).
 func signTap(c *Case, g *vlib.Rng, priv []byte, annex []byte, leaf []byte, codesep uint32, ht byte, scriptPath bool) []byte {
-	tx := buildTx(c)
 	var ed btc.ScriptExecutionData
 	if annex != nil {
 		ed.M_annex_hash = sha2(cat(compactSize(len(annex)), annex))
 	}
 	ed.M_tapleaf_hash = leaf
 	ed.M_codeseparator_pos = codesep
-	h := tx.TaprootSigHash(&ed, c.Idx, ht, scriptPath)
-	if h == nil {
+	var h []byte
+	// a panic of the tree's TaprootSigHash here is "no digest" for the SIGNER; the same input then goes through
+	// VerifyTxScript in runCase, where an escaping panic is the property failure
+	guard("TaprootSigHash", func() { h = buildTx(c).TaprootSigHash(&ed, c.Idx, ht, scriptPath) })
+	if len(h) != 32 {
 		h = make([]byte, 32)
 	}
+	aux := g.Bytes(32) // drawn outside the guarded call: the PRNG stream does not depend on the tree under test
 	var sig []byte
-	quiet(func() { sig = secp256k1.SchnorrSign(h, priv, g.Bytes(32)) })
-	if sig == nil {
+	guard("SchnorrSign", func() { quiet(func() { sig = secp256k1.SchnorrSign(h, priv, aux) }) })
+	if len(sig) != 64 {
 		sig = make([]byte, 64)
 	}
 	if ht != 0 {
